@@ -55,7 +55,7 @@ TECHNIQUE = "differential testing against a plain-Python reference: exhaustive p
 RULE = (
     "layouts (EXHAUSTIVE): for each element kind (int, str, pair, dict, list-of-ints) one fixed sequence of 4 (thorough: 5) "
     "elements with duplicates x EVERY layout into 1..3 (thorough 1..4) partitions, empty partitions included, x every "
-    "applicable single operation from a fixed catalogue (~70-110 per kind: all op families of the statement with "
+    "applicable single operation from a fixed catalogue (75-190 per kind: all op families of the statement with "
     "representative parameters: split_every None/2, groupby tasks max_branch None/2 and disk, take with npartitions, ...); "
     "pairs (EXHAUSTIVE over its catalogue): two-operation pipelines (first/last variant of every bag-valued family followed by "
     "first/last variant of every family, plus every variant that reads its input bag twice) on the layouts [4] and [2,0,2]; "
@@ -393,7 +393,29 @@ def _classify_accumulate(spec, sig):
         pass
 
 
+_CLASS_FLAGS = ("same_key_twice_in_task", "shared_iterator_partition", "accumulate_empty_first_partition")
+
+
 def check(spec):
+    try:
+        _check(spec)
+    except Violation as v:
+        if any(op["op"] == "accumulate" for op in spec["ops"]):
+            _classify_accumulate(spec, v.sig)
+        sig = v.sig
+        fold_empty = sig.get("empty_bag") is True and sig.get("where") == "bag/core.py:_reduce"
+        if fold_empty or any(sig.get(f) is True for f in _CLASS_FLAGS):
+            # the failure belongs to an identified input class: the surrounding pipeline is irrelevant, keep the
+            # signature low-cardinality (one bucket per class and symptom)
+            for k in ("ops", "kind", "empty_partition", "empty_first_partition", "multi_stage_shuffle", "where"):
+                if k in sig and not (fold_empty and k == "where"):
+                    sig[k] = "*"
+            if not fold_empty:
+                sig["empty_bag"] = "*"
+        raise
+
+
+def _check(spec):
     import dask
 
     trace, want = _run_reference(spec)
@@ -404,16 +426,11 @@ def check(spec):
         os.makedirs(tmp, exist_ok=True)
     try:
         with dask.config.set(scheduler="sync", temporary_directory=tmp if uses_disk else None):
-            try:
-                with impl("bag pipeline", **sig):
-                    b = B.build_source(spec["src"])
-                    for op in spec["ops"]:
-                        b = B.dask_step(b, op)
-                    got = list(b) if isinstance(b, tuple) else b.compute(scheduler="sync")
-            except Violation as v:
-                if any(op["op"] == "accumulate" for op in spec["ops"]):
-                    _classify_accumulate(spec, v.sig)
-                raise
+            with impl("bag pipeline", **sig):
+                b = B.build_source(spec["src"])
+                for op in spec["ops"]:
+                    b = B.dask_step(b, op)
+                got = list(b) if isinstance(b, tuple) else b.compute(scheduler="sync")
     finally:
         if uses_disk:
             shutil.rmtree(tmp, ignore_errors=True)
